@@ -28,6 +28,8 @@ type c09Case struct {
 	Fault      string     `json:"fault"` // "", "rcpt:<addr>", "data4", "data5", "drop-data"
 	History    [][]string `json:"history"`
 	UTF8Msg    bool       `json:"message_smtputf8"`
+	// NullFrom: index of the transaction sent with the null reverse-path (a bounce); -1 / absent: none
+	NullFrom *int `json:"null_sender_transaction,omitempty"`
 }
 
 var c09Alphabet = []string{"a@example.org", "A2@EXAMPLE.ORG", "b@пример.рф", "c@xn--e1afmkfd.xn--p1ai", "ü@example.org", "d@example.org"}
@@ -78,7 +80,11 @@ func c09Run(c c09Case) (string, string) {
 	for ti, rcpts := range c.History {
 		ctx := context.Background()
 		meta := &module.MsgMetadata{ID: fmt.Sprintf("c09-%d", ti), SMTPOpts: smtp.MailOptions{UTF8: c.UTF8Msg}}
-		d, err := tgt.Start(ctx, meta, "sender@origin.example")
+		from := "sender@origin.example"
+		if c.NullFrom != nil && *c.NullFrom == ti {
+			from = ""
+		}
+		d, err := tgt.Start(ctx, meta, from)
 		if err != nil {
 			return "C09:remote:start-failed", err.Error()
 		}
@@ -166,7 +172,7 @@ func c09InEarlier(h [][]string, a string) bool {
 func TestVerifC09(t *testing.T) {
 	r := vx.Start("C09", "remote")
 	defer r.Finish()
-	r.Rule("histories of 1-2 (quick) / 1-3 (thorough) consecutive transactions through one real remote target (pooled connections) to scripted MX servers for two recipient domains; recipient lists of 1-2 from {ASCII, upper-case, IDN U-label, A-label, non-ASCII local part, second mailbox}; next hop with / without SMTPUTF8; message with / without SMTPUTF8; faults {none, RCPT refused for one address, DATA 4xx, DATA 5xx, connection dropped at DATA, connection dropped at the RCPT of one address, 421 at the RCPT of one address}; oracle: the multiset of SetStatus keys of each transaction equals, as exact strings, the addresses for which AddRcpt returned nil in that transaction. Non-trivial: distinct cases with a fault, a conversion or a reused connection")
+	r.Rule("histories of 1-2 (quick) / 1-3 (thorough) consecutive transactions through one real remote target (pooled connections) to scripted MX servers for two recipient domains; recipient lists of 1-2 from {ASCII, upper-case, IDN U-label, A-label, non-ASCII local part, second mailbox}; next hop with / without SMTPUTF8; message with / without SMTPUTF8; second transaction with an ordinary or the null sender; faults {none, RCPT refused for one address, DATA 4xx, DATA 5xx, connection dropped at DATA, connection dropped at the RCPT of one address, 421 at the RCPT of one address}; oracle: the multiset of SetStatus keys of each transaction equals, as exact strings, the addresses for which AddRcpt returned nil in that transaction. Non-trivial: distinct cases with a fault, a conversion or a reused connection")
 	if rp := r.Replay(); rp != nil {
 		var c c09Case
 		if json.Unmarshal(rp, &c) != nil {
@@ -222,17 +228,25 @@ func TestVerifC09(t *testing.T) {
 					if !r.Mine(idx) {
 						continue
 					}
+					nulls := []*int{nil}
+					if len(h) > 1 && f == "" {
+						one := 1
+						nulls = append(nulls, &one)
+					}
+					for _, nf := range nulls {
+						c := c09Case{UTF8Server: su, Fault: f, History: h, UTF8Msg: mu, NullFrom: nf}
+						fp, detail := c09Run(c)
+						r.Eval()
+						if f != "" || !su || len(h) > 1 {
+							r.Nontrivial(vx.JSON(c))
+						}
+						if fp != "" {
+							r.Violation(fp, detail+"\ncase: "+vx.JSON(c), c)
+						} else {
+							r.Outcome(c09Outcome)
+						}
+					}
 					c := c09Case{UTF8Server: su, Fault: f, History: h, UTF8Msg: mu}
-					fp, detail := c09Run(c)
-					r.Eval()
-					if f != "" || !su || len(h) > 1 {
-						r.Nontrivial(vx.JSON(c))
-					}
-					if fp != "" {
-						r.Violation(fp, detail+"\ncase: "+vx.JSON(c), c)
-					} else {
-						r.Outcome(c09Outcome)
-					}
 					if idx%4001 == 0 {
 						r.Sample(c)
 					}
